@@ -1,0 +1,29 @@
+//go:build verif
+
+package mutable
+
+import "sync"
+
+// Verification hooks (build tag verif only). Nothing changes while no hook is set.
+
+var verifYieldHook func(op string)
+var verifLockHook func(l *sync.Mutex)
+
+// VerifSetHooks installs a hook called before every atomic load/store of a
+// CopyOnWriteMap and one called before every acquisition of its mutex.
+func VerifSetHooks(yield func(op string), beforeLock func(l *sync.Mutex)) {
+	verifYieldHook = yield
+	verifLockHook = beforeLock
+}
+
+func verifYield(op string) {
+	if h := verifYieldHook; h != nil {
+		h(op)
+	}
+}
+
+func verifBeforeLock(l *sync.Mutex) {
+	if h := verifLockHook; h != nil {
+		h(l)
+	}
+}
